@@ -63,12 +63,12 @@ def check_triple(acc, kind, case, a, b, c):
 
 def tasks(tier, seed):
     t = []
-    plan = [(2, a, u, 2, 1, 0) for a in range(4) for u in ("range", "any")]
+    plan = [(2, a, u, 2, 1, 0) for a in range(5) for u in ("range", "any")]
     if tier == "quick":
         # a 1/8 slice (chosen by the seed) of the k=3 triples; the full space is the thorough tier's
-        plan += [(3, seed % 4, "range", 16, 8, seed % 8)]
+        plan += [(3, seed % 5, "range", 16, 8, seed % 8)]
     else:
-        plan += [(3, a, "range", 32, 1, 0) for a in range(4)]
+        plan += [(3, a, "range", 32, 1, 0) for a in range(5)]
     for k, a, u, nsh, nslices, sl in plan:
         for sh in range(nsh):
             t.append((MOD, "exh", (k, a, u, sh, nsh, nslices, sl)))
